@@ -292,9 +292,16 @@ def sg_evaltime(prog: Program) -> RuleResult:
     return r
 
 
+def _idkey(prog):
+    # 'each once': an index entry lost to a recycled id makes the next ensure_wrapped_instance register the instance a second time
+    from .c14 import idkey
+
+    return idkey(prog)
+
+
 def run(prog: Program, tier: str) -> List[RuleResult]:
     from .c03 import domain_cache
 
     # the census reaches the variable through the caching iterator: an instance dropped from the cache is missing from the range
     return [sg_register(prog), sg_enum(prog), sg_sweep(prog, census_only=True), sg_evaltime(prog), domain_cache(prog),
-            user_truth(prog, ["entity_query_language.symbol_graph"], 3)]
+            user_truth(prog, ["entity_query_language.symbol_graph"], 3), _idkey(prog)]
